@@ -12,7 +12,7 @@ from concurrent.futures import ThreadPoolExecutor
 
 from lib import gN, gbool, bspec_in, bspec_obs, lcg_bytes, hexs
 
-HEADER = "From CJ Require Import Common.Base C15.Model C15.ModelName C15.ModelObf C15.ModelAny C15.ModelDns C15.ModelB32 C15.ModelExch C15.ModelPb C15.Run.\n"
+HEADER = "From CJ Require Import Common.Base C15.Model C15.ModelName C15.ModelObf C15.ModelAny C15.ModelDns C15.ModelB32 C15.ModelExch C15.ModelPb C15.ModelDot C15.Run.\n"
 DNSREG = "pkg/registrars/dns-registrar/"
 PKGS = {
     "msgformat": (".", DNSREG + "msgformat", "c15/msgformat_driver_test.go", "TestVerifC15Msgformat"),
@@ -805,6 +805,75 @@ def post_anypb_bytes(ctx, c):
     return "CAnyBytes %s %s %s %s %s" % (gN(PBKIND[dst]), hexs(d), g_bool(r["ok"]), g_bool(r["ok2"]), g_pbval(dst, r.get("pb") if r["ok2"] else None))
 
 
+# ------------------------------------------------------------------ DoT framing
+def gen_dot(ctx):
+    rng, quick = ctx.rng, ctx.tier == "quick"
+    out = []
+
+    def rt(msgs):
+        out.append(Case("dot_rt", "requester", {"op": "dot_rt", "msgs": [bytes(m).hex() for m in msgs]}, msgs))
+    rt([])
+    rt([b""])
+    rt([b"", b"", b"x"])
+    for n in [1, 2, 254, 255, 256, 257, 65534, 65535]:
+        rt([rb(rng, n)])
+    rt([rb(rng, 3), rb(rng, 65535), rb(rng, 1)])
+    rt([rb(rng, 65536)])                        # sendLoop panics: the length does not fit the prefix
+    rt([rb(rng, 5), rb(rng, 65537), rb(rng, 6)])
+    for _ in range(4 if quick else 80):
+        rt([rb(rng, rng.choice([0, 1, 2, 30, 255, 256, 300, 1000])) for _ in range(rng.randrange(1, 12))])
+
+    def recv(d):
+        out.append(Case("dot_recv", "requester", {"op": "dot_recv", "data": bytes(d).hex()}, bytes(d)))
+    frame = lambda m: bytes([len(m) >> 8, len(m) & 255]) + m   # noqa: E731
+    recv(b"")
+    recv(b"\x00")
+    recv(b"\x00\x00")
+    recv(b"\x00\x00\x00")
+    recv(frame(b"ab") + frame(b"")[:1])
+    recv(frame(b"ab") + frame(b"cde")[:-1])
+    recv(b"\xff\xff" + b"z" * 100)
+    for _ in range(8 if quick else 200):
+        s_ = b"".join(frame(bytes(rb(rng, rng.choice([0, 1, 2, 5, 40, 300])))) for _ in range(rng.randrange(0, 6)))
+        if rng.random() < 0.6 and s_:
+            s_ = s_[:rng.randrange(len(s_) + 1)]
+        elif rng.random() < 0.3:
+            s_ += bytes(rb(rng, rng.choice([1, 2, 3])))
+        recv(s_)
+    return out
+
+
+def g_blist(ms, f):
+    return "[" + "; ".join(f(m) for m in ms) + "]"
+
+
+def post_dot_rt(ctx, c):
+    msgs, r = c.aux, c.res
+    case = {"fam": "dot_rt", "msgs": [short(bytes(m)) for m in msgs]}
+    got = unhexl(r.get("msgs"))
+    fits = [len(m) <= 65535 for m in msgs]
+    k = fits.index(False) if False in fits else len(msgs)
+    ctx.count(("dot_rt", tuple(bytes(m) for m in msgs)), kind="dot_rt/" + ("ok" if k == len(msgs) else "oversize"))
+    if got != [bytes(m) for m in msgs[:k]] or (k == len(msgs) and not r["clean"]):
+        ctx.fail("dot/roundtrip", "recvLoop did not deliver exactly the messages sendLoop framed (%d sent, %d delivered, clean=%s, err=%r)"
+                 % (k, len(got), r["clean"], r["err"]), case)
+    if k < len(msgs) and not r.get("panic"):
+        ctx.fail("dot/oversize-accepted", "sendLoop framed a %d-byte message with a two-octet length" % len(msgs[k]), case)
+    stream = bytes.fromhex(r["out"])
+    return "CDotRt %s %s %s %s %s" % (g_blist(msgs, bspec_in), bspec_obs(stream), gbool(bool(r.get("panic"))),
+                                      g_blist(got, bspec_obs), gbool(r["clean"]))
+
+
+def post_dot_recv(ctx, c):
+    d, r = c.aux, c.res
+    got = unhexl(r.get("msgs"))
+    ctx.count(("dot_recv", d), kind="dot_recv/" + ("clean" if r["clean"] else "error"))
+    if r["err"] not in ("", "unexpected EOF"):
+        ctx.broken("correspondence", "unexpected outcome of recvLoop: %r" % r["err"], {"fam": "dot_recv", "data": d.hex()})
+        return None
+    return "CDotRecv %s %s %s" % (hexs(d), g_blist(got, hexs), gbool(r["clean"]))
+
+
 KINDS = {"generic": (0, "GenericTransportParams", 1), "prefix": (1, "PrefixTransportParams", 3),
          "dtls": (2, "DTLSTransportParams", 2), "c2s": (3, "ClientToStation", 2)}
 
@@ -1095,7 +1164,7 @@ def post_msg_rt(ctx, c):
                                       g_msg(r.get("msg") if r.get("ok2") else None, g_obs_rr))
 
 
-TERMS = {"pb_rt": post_pb_rt, "pb_dec": post_pb_dec, "anypb_bytes": post_anypb_bytes, "name_string": post_name_string, "exchange": post_exchange, "query": post_query, "msg_rt": post_msg_rt, "msg_dec": post_msg_dec, "anypb": post_any, "obf": post_obf, "reveal": post_reveal, "fmt": post_fmt, "name_rt": post_name_rt, "read_name": post_read_name, "trim": post_trim,
+TERMS = {"dot_rt": post_dot_rt, "dot_recv": post_dot_recv, "pb_rt": post_pb_rt, "pb_dec": post_pb_dec, "anypb_bytes": post_anypb_bytes, "name_string": post_name_string, "exchange": post_exchange, "query": post_query, "msg_rt": post_msg_rt, "msg_dec": post_msg_dec, "anypb": post_any, "obf": post_obf, "reveal": post_reveal, "fmt": post_fmt, "name_rt": post_name_rt, "read_name": post_read_name, "trim": post_trim,
          "chunks": post_chunks, "b32": post_b32}
 
 
@@ -1146,6 +1215,9 @@ def replay_cases(ctx):
             elif fam == "exchange" and not c["resp"].startswith("len:"):
                 p_, r_, d_ = bytes.fromhex(c["data"]), bytes.fromhex(c["resp"]), unhexl(c["domain"])
                 out.append(Case("exchange", "responder", {"op": "exchange", "data": p_.hex(), "resp": r_.hex(), "domain": hexl(d_)}, (p_, r_, d_)))
+            elif fam == "dot_recv":
+                b = bytes.fromhex(c["data"])
+                out.append(Case("dot_recv", "requester", {"op": "dot_recv", "data": b.hex()}, b))
             elif fam == "trim":
                 n, s = unhexl(c["labels"]), unhexl(c["suffix"])
                 out.append(Case("trim", "dns", {"op": "trim", "labels": hexl(n), "suffix": hexl(s)}, (n, s)))
@@ -1184,7 +1256,7 @@ def run(ctx):
     if rc != 0:
         ctx.broken("examples", "non-vacuity examples (C15/Examples.v) or the case evaluator (C15/Run.v) no longer check: " + out[-500:])
     _t("coq props+examples")
-    cases = replay_cases(ctx) + gen_fmt(ctx) + gen_names(ctx) + gen_req(ctx) + gen_obf(ctx) + gen_any(ctx) + gen_msg(ctx) + gen_query(ctx) + gen_exch(ctx) + gen_pb(ctx)
+    cases = replay_cases(ctx) + gen_fmt(ctx) + gen_names(ctx) + gen_req(ctx) + gen_obf(ctx) + gen_any(ctx) + gen_msg(ctx) + gen_query(ctx) + gen_exch(ctx) + gen_pb(ctx) + gen_dot(ctx)
     if not run_go(ctx, cases):
         return
     _t("gen + go stage 1")
@@ -1261,6 +1333,7 @@ def run(ctx):
                        "pb_rt/generic/ok", "pb_rt/prefix/ok", "pb_rt/dtls/ok", "pb_rt/any/ok", "pb_dec/prefix/ok", "pb_dec/prefix/err",
                        "pb_dec/dtls/ok", "pb_dec/dtls/err", "pb_dec/any/err", "anypb_bytes/empty/ok", "anypb_bytes/cross-empty/ok",
                        "anypb_bytes/cross-keep/err", "anypb_bytes/other/err",
+                       "dot_rt/ok", "dot_rt/oversize", "dot_recv/clean", "dot_recv/error",
                        "anypb/keep/ok", "anypb/empty/ok", "anypb/tapdance/ok", "anypb/other/err", "anypb/cross-keep/err", "anypb/nil/ok"])
     _t("oracle + terms")
     mm = ctx.coq_mismatches("all", HEADER, terms, "chk", shard=max(60, (len(terms) + 11) // 12))
